@@ -1042,6 +1042,19 @@ def rule_r12(repo, run):
                   "a %s is declared %s in the bind(C) derived type: size and offsets of the Fortran type differ from the C "
                   "struct" % (desc, "as a single type(C_PTR)" if got_ptr else "with its value type instead of type(C_PTR)"),
                   wf.loc(loops[0]), sample=dict(member=desc, c_ptr=got_ptr))
+    # value members are components of a bind(C) type, not dummy arguments: they are rendered with the interoperable type
+    # (f_c_type: logical(C_BOOL), not the wrapper-side `logical`) and without dummy-argument forms (character(len=*))
+    rend = [c for c in ast.walk(loops[0]) if isinstance(c, ast.Call) and isinstance(c.func, ast.Attribute)
+            and c.func.attr == "gen_arg_as_fortran"]
+    if not rend:
+        raise AnalysisError("C04.R12: rendering of value members (gen_arg_as_fortran) not found in wrap_struct")
+    for c in rend:
+        kw = dict((k.arg, k.value) for k in c.keywords)
+        ok_kw = all(isinstance(kw.get(k_), ast.Constant) and kw[k_].value is True for k_ in ("bindc", "local"))
+        run.check(R, "wrapf.Wrapf.wrap_struct:member-kinds", ok_kw,
+                  "members are rendered with `%s`: without bindc=True a `bool` member is default `logical` (4 bytes against C's "
+                  "1-byte bool), without local=True a `char` member is `character(len=*)`, which is not allowed in a derived "
+                  "type" % " ".join(str(wf.seg(c)).split()), wf.loc(c))
     # assumed-rank dummies of the interface are declared (..) whatever rank/dimension attributes say
     sf = wf.func("Wrapf.set_fmt_fields")
     ar = [a for a in ast.walk(sf) if isinstance(a, ast.Assign) and isinstance(a.targets[0], ast.Attribute)
